@@ -79,6 +79,7 @@ CLASSES = [
     ('UGenList', uc.UGenList, 'seq'),
     ('UGenList2', uc.UGenList2, 'seq'),
     ('UIntList', uc.UIntList, 'seq'),
+    ('UTagged', uc.UTagged, 'seq'),
     ('UGenDict', uc.UGenDict, 'map'),
     ('UGenPlain', uc.UGenPlain, 'plain'),
     ('EColor', uc.EColor, 'enum'),
